@@ -13,9 +13,10 @@ package watchersyncer_test
 //
 // Real goroutines => outcome oracle only, evaluated when the plan is exhausted and the system is
 // provably quiescent.  Quiescence is established without sleeping on a guess: once no fault is
-// pending, the harness writes a sentinel object into every resource type, waits until the callbacks
-// have seen it, writes it again and waits again.  The second sentinel can only arrive through a
-// watch event that follows the last List of that type, and each cache -> syncer -> callback path is
+// pending, the harness writes a sentinel object into every resource type and waits until the
+// callbacks have seen everything that write must produce; this is repeated until a round is "clean"
+// (no List/Watch call happened during it and every type has a caught-up watcher).  In a clean round
+// the sentinel travelled through the established watch, and each cache -> syncer -> callback path is
 // FIFO, so when it has arrived everything the last resync produced (including its synthesized
 // deletes) has been delivered.  A wait that exceeds the deadline ends the process with
 // VERIF-INCONCLUSIVE (never a violation).
@@ -153,7 +154,11 @@ func (s *c26Store) bumpLocked() {
 	s.changed = make(chan struct{})
 }
 
-func (s *c26Store) logf(f string, a ...any) { s.log = append(s.log, fmt.Sprintf(f, a...)) }
+var c26DbgT0 = time.Now()
+
+func (s *c26Store) logf(f string, a ...any) {
+	s.log = append(s.log, fmt.Sprintf("%v ", time.Since(c26DbgT0))+fmt.Sprintf(f, a...))
+}
 
 func c26Key(kind, name string) model.ResourceKey {
 	k := model.ResourceKey{Kind: kind, Name: name}
@@ -496,6 +501,7 @@ type c26Recorder struct {
 	changed     chan struct{}
 	syncFailed  int
 	parseFailed int
+	delay       time.Duration // slow consumer: lets results pile up so the syncer consolidates them
 }
 
 func (r *c26Recorder) bumpLocked() {
@@ -504,6 +510,9 @@ func (r *c26Recorder) bumpLocked() {
 }
 
 func (r *c26Recorder) OnStatusUpdated(st api.SyncStatus) {
+	if r.delay > 0 {
+		time.Sleep(r.delay)
+	}
 	// Which lists had completed is read before taking our own lock; the fake records completion
 	// before List returns, i.e. before the cache can report anything based on it.
 	r.store.mu.Lock()
@@ -516,7 +525,7 @@ func (r *c26Recorder) OnStatusUpdated(st api.SyncStatus) {
 	r.store.mu.Unlock()
 	r.mu.Lock()
 	defer r.mu.Unlock()
-	r.seq = append(r.seq, "status:"+st.String())
+	r.seq = append(r.seq, fmt.Sprintf("%v ", time.Since(c26DbgT0))+"status:"+st.String())
 	r.status = st
 	r.haveStatus = true
 	switch st {
@@ -532,6 +541,9 @@ func (r *c26Recorder) OnStatusUpdated(st api.SyncStatus) {
 }
 
 func (r *c26Recorder) OnUpdates(us []api.Update) {
+	if r.delay > 0 {
+		time.Sleep(r.delay)
+	}
 	r.mu.Lock()
 	defer r.mu.Unlock()
 	var parts []string
@@ -684,7 +696,7 @@ func (c *c26Case) checkViolations() {
 func TestVerifC26WatcherSyncer(t *testing.T) {
 	ev.Quiet()
 	rec := ev.New("C26", "watchersyncer",
-		"real watchersyncer (goroutines) over a fake revisioned datastore with 1..3 resource types (each randomly with a stateless update processor and/or SendDeletesOnConnFail), retry intervals 1ms, watchRetryTimeout 1ns or 1h; generated steps: create/update/delete objects, queue List outcomes (error / not-installed / expired / empty-without-revision) and Watch outcomes (error / expired / gone / refused / too-many-requests / not-supported / not-exist / ok with end-after-n-events by error event, expired event or close, bookmarks), kill the running watcher, wait-for-watch-established barriers; then a two-sentinel quiescence barrier and the outcome oracle. Non-trivial = >=1 watcher ended by an injected fault after being established AND >=1 List was served that lacked a key the cache had been told about (a resync delete was required); distinct = step-kind sequence",
+		"real watchersyncer (goroutines) over a fake revisioned datastore with 1..3 resource types (each randomly with a stateless update processor and/or SendDeletesOnConnFail), retry intervals 1ms, watchRetryTimeout 1ns or 1h; generated steps: create/update/delete objects, queue List outcomes (error / not-installed / expired / empty-without-revision) and Watch outcomes (error / expired / gone / refused / too-many-requests / not-supported / not-exist / ok with end-after-n-events by error event, expired event or close, bookmarks), kill the running watcher, wait-for-watch-established barriers; then a sentinel-based quiescence barrier and the outcome oracle (or, in 1/8 of cases, the datastore goes away for good and the syncer is stopped while reporting WaitForDatastore: ordering clauses only); in 1/3 of cases the consumer is slow (1ms per callback) so that results get consolidated. Non-trivial = >=1 watcher ended by an injected fault after being established AND >=1 List was served that lacked a key the cache had been told about (a resync delete was required); distinct = step-kind sequence",
 		"a List answered NotFound (API not installed) counts as a completed, empty list",
 		"revisions are integers issued by the fake; every write bumps the object's revision (as etcd/k8s do)",
 		"deadline (120s per wait) => VERIF-INCONCLUSIVE, never a violation")
@@ -701,6 +713,10 @@ func TestVerifC26WatcherSyncer(t *testing.T) {
 	}()
 
 	rapid.Check(t, func(t *rapid.T) {
+		c26T0 := time.Now()
+		defer func() {
+			fmt.Fprintf(os.Stderr, "C26TIMING %v\n", time.Since(c26T0))
+		}()
 		nTypes := rapid.IntRange(1, 3).Draw(t, "numTypes")
 		kinds := c26Kinds[:nTypes]
 		store := &c26Store{types: map[string]*c26TypeState{}, changed: make(chan struct{}), rev: rapid.IntRange(1, 50).Draw(t, "initialRevision")}
@@ -755,7 +771,11 @@ func TestVerifC26WatcherSyncer(t *testing.T) {
 		if rapid.Bool().Draw(t, "longWatchRetryTimeout") {
 			retry = time.Hour
 		}
-		c.steps = append(c.steps, fmt.Sprintf("watchRetryTimeout=%v", retry))
+		if rapid.IntRange(0, 2).Draw(t, "slowConsumer") == 0 {
+			cbs.delay = time.Millisecond
+		}
+		earlyStop := retry == time.Nanosecond && rapid.IntRange(0, 3).Draw(t, "stopWhileDisconnected") == 0
+		c.steps = append(c.steps, fmt.Sprintf("watchRetryTimeout=%v consumerDelay=%v", retry, cbs.delay))
 
 		syncer := watchersyncer.New(store, rts, cbs, watchersyncer.WithWatchRetryTimeout(retry))
 		syncer.Start()
@@ -869,6 +889,42 @@ func TestVerifC26WatcherSyncer(t *testing.T) {
 				ops = append(ops, "O"+short)
 			}
 			c.checkViolations()
+		}
+
+		if earlyStop {
+			// Alternative ending: the datastore goes away for good and the syncer is stopped while it
+			// is reporting WaitForDatastore.  Only the ordering clauses (2, 3) apply.
+			cbs.mu.Lock()
+			waitsBefore := cbs.waitCount
+			cbs.mu.Unlock()
+			store.mu.Lock()
+			for _, k := range kinds {
+				ts := store.types[k]
+				ts.listPlan = nil
+				for j := 0; j < 100000; j++ {
+					ts.listPlan = append(ts.listPlan, c26ListErr)
+				}
+				ts.watchPlan = []c26WatchPlan{{Outcome: c26WatchExpired}}
+				if w := ts.watcher; w != nil && !w.ended {
+					w.killNow = c26EndExpiredEvent
+				}
+			}
+			store.bumpLocked()
+			store.mu.Unlock()
+			c.steps = append(c.steps, "datastore gone: every List fails from now on; wait for WaitForDatastore, then Stop")
+			fmt.Fprintf(os.Stderr, "C26TIMING earlystop delay=%v at %v\n", cbs.delay, time.Since(c26DbgT0))
+			c.waitRec("WaitForDatastore reported after the datastore went away", func() bool {
+				return cbs.waitCount > waitsBefore && cbs.status == api.WaitForDatastore
+			})
+			c26T1 := time.Now()
+			stop()
+			fmt.Fprintf(os.Stderr, "C26TIMING waitdone=%v stop=%v\n", c26T1.Sub(c26T0), time.Since(c26T1))
+			if time.Since(c26T0) > time.Second {
+				fmt.Fprintf(os.Stderr, "C26SLOW %s\n", c.dump())
+			}
+			c.checkViolations()
+			rec.SizedCase(false, "early-stop", len(ops), nil, "stopped-while-waiting-for-datastore")
+			return
 		}
 
 		// ---- quiescence barrier --------------------------------------------------------------------
